@@ -158,11 +158,23 @@ func (parser *syslogParser) Parse(input []byte, timestamp time.Time) *base.LogRe
 		remaining = next
 	}
 
+	// the input may deliver oversized records (soft limit); the header fields are kept as they are, so they alone must
+	// fit in the maximum record length, which all later stages (e.g. fixed serialization buffers) rely on
+	headerLength := len(input) - len(remaining)
+	if headerLength > defs.InputLogMaxRecordBytes {
+		parser.onMalformed(record, "oversized syslog header", input)
+		return nil
+	}
+
 	// all the rest of message goes to the "log" message field
 	messageCut := false
-	if len(remaining) > defs.InputLogMaxMessageBytes {
+	maxMessageLength := defs.InputLogMaxMessageBytes
+	if headerLength+maxMessageLength > defs.InputLogMaxRecordBytes {
+		maxMessageLength = defs.InputLogMaxRecordBytes - headerLength
+	}
+	if len(remaining) > maxMessageLength {
 		parser.onOverflow(input)
-		remaining = remaining[:defs.InputLogMaxMessageBytes]
+		remaining = remaining[:maxMessageLength]
 		messageCut = true
 	}
 	// clean up the end if it was cut here or (possibly) by the input due to record length limit
